@@ -89,6 +89,8 @@ pub enum G {
     SepCount(&'static G, &'static G, Cnt, Cnt, Flag, Flag),
     /// repeated().collect_exactly::<[_; 2]>(): exactly two items are taken (a third is left unconsumed)
     CollectEx2(&'static G),
+    /// repeated().at_most(hi).collect_exactly::<[_; 2]>(): at most `hi` items are taken, exactly two are needed
+    CollectEx2B(&'static G, Cnt),
     /// repeated().at_least(lo).at_most(hi).enumerate().collect(): every item followed by its index
     Enum(&'static G, Cnt, Cnt),
     /// `a.lazy()`: a, then anything
@@ -158,7 +160,8 @@ pub struct Env<'a> {
     pub far: Far,
     /// permissive-corner selector (see DESIGN 2.2): bit 0 = a trailing separator is consumed when
     /// `at_most` has been reached and `allow_trailing` is set; bit 1 = with zero items, a consumed
-    /// leading separator stays consumed.
+    /// leading separator stays consumed; bit 2 = a rejecting `try_map` supersedes the failures recorded inside the
+    /// match it rejects (they are forgotten and the user's error is filed at the start of the match).
     pub perm: u8,
     /// set when an emission did not fit (`MAX_EMIS`): the comparison is then skipped, never failed
     pub overflow: bool,
@@ -449,11 +452,17 @@ pub fn eval(g: &G, pos: usize, env: &mut Env) -> R {
         }
         G::TryMap(a, i) => {
             let m = (env.n_emis, env.wsum);
+            let far0 = env.far;
             let (x, p) = eval(a, pos, env)?;
             if x.low() > env.tok(i) {
                 Some((x.tag(7), p))
             } else {
                 (env.n_emis, env.wsum) = m;
+                // permissive corner (bit 2): the user's error SUPERSEDES the failures recorded inside the match it
+                // rejects (`int.try_map(too_large)`: "number too large", not "expected digit" from the digit loop)
+                if env.perm & 4 == 4 {
+                    env.far = far0;
+                }
                 env.fail(pos, X_NONE, true);
                 None
             }
@@ -496,6 +505,16 @@ pub fn eval(g: &G, pos: usize, env: &mut Env) -> R {
         G::CollectEx2(a) => {
             let (items, n, p) = rep(a, pos, env, Cnt::K(2), Cnt::K(2))?;
             Some((Tr::list(&items[..n]), p))
+        }
+        G::CollectEx2B(a, hi) => {
+            if env.cnt(hi) >= 2 {
+                let (items, n, p) = rep(a, pos, env, Cnt::K(2), Cnt::K(2))?;
+                Some((Tr::list(&items[..n]), p))
+            } else {
+                // the repetition stops at its cap before the array is full: failure (after having run the items)
+                let _ = rep(a, pos, env, Cnt::K(0), hi);
+                None
+            }
         }
         G::Enum(a, lo, hi) => {
             let (mut items, n, p) = rep(a, pos, env, lo, hi)?;
